@@ -317,7 +317,9 @@ class TypedNode(Node):
             children.insert(insert_pos, node)
 
         if deep and source_node:
-            node._add_from(source_node)
+            # `node` may have been added inside the branch of `source_node`:
+            # pass it, so the new copy is not copied into itself recursively.
+            node._add_from(source_node, _skip=node)
 
         return node
 
@@ -426,7 +428,11 @@ class TypedNode(Node):
     #     raise NotImplementedError
 
     def _add_from(
-        self, other: Node, *, predicate: Optional[PredicateCallbackType] = None
+        self,
+        other: Node,
+        *,
+        predicate: Optional[PredicateCallbackType] = None,
+        _skip: Optional[Node] = None,
     ) -> None:
         """Append copies of all source descendants to self (keeping the kinds)."""
         if predicate:
@@ -434,13 +440,15 @@ class TypedNode(Node):
 
         assert not self._children
         for child in other.children:
+            if child is _skip:
+                continue
             new_child = self.add_child(
                 child.data,
                 kind=getattr(child, "kind", None),
                 data_id=child._data_id,
             )
             if child.children:
-                new_child._add_from(child, predicate=None)
+                new_child._add_from(child, predicate=None, _skip=_skip)
         return
 
     def copy(self, *, add_self=True, predicate=None) -> TypedTree:
